@@ -4,17 +4,24 @@ import TempestVerif.Sc
 
   Layout follows the Python after `data = data.T`: the data are `dim` columns `X[a]` of `n` numbers.
   Vectors are lists, matrices lists of rows.  `np.linalg.solve(Sigma, diffs)` is modelled by the
-  Gauss–Jordan inverse without pivoting (`Sigma` is symmetric positive definite in every use; a
-  non-positive pivot makes the model answer `none` = "outside the model", never a default value).
+  Gauss–Jordan inverse without pivoting (a non-positive pivot makes `inv` answer `none`, never a default value).
   `opt_nu` (scipy's `psi` + `bisect` on `[1e-300, nu_max = 1e6]`, `inf` when `func0(nu_max) >= 0`) is NOT modelled:
-  the value of `nu` of every iteration is supplied from outside (`none` = `np.inf`, which triggers the early return).
+  the answer of every iteration is supplied from outside as a tape event (`NuEv`): a value, `inf` (early return)
+  or `fail` (`bisect` raised `ValueError`, caught by the loop).
+  `np.linalg.solve` raising `LinAlgError` is modelled by `inv` answering `none`; `np.linalg.cholesky(new_Sigma)`
+  succeeding is modelled by `inv new_Sigma` being defined (all pivots `> 0`: the same criterion in exact arithmetic).
 
-  Python (student.py:58-91):
+  Python (student.py, commit 3acbd02):
       mu = median(data, 1);  Sigma = cov(data)*(n-1)/n + (1/n)*diag(var(data, 1));  nu = 20; last_nu = 0; i = 0
       while |last_nu - nu| > tol and i < max_iter:
-          i += 1; diffs = data - mu; delta = sum(diffs * solve(Sigma, diffs), 0)
-          last_nu = nu; nu = opt_nu(delta, nu);  if nu == inf: return mu, Sigma, nu
-          w = (nu + dim)/(nu + delta);  Sigma = dot(w*diffs, diffs.T)/n;  mu = sum(w*data, 1)/sum(w)
+          i += 1; diffs = data - mu
+          try:    delta = sum(diffs * solve(Sigma, diffs), 0); new_nu = opt_nu(delta, nu)
+          except (LinAlgError, ValueError): break                       -- keep the last (mu, Sigma, nu)
+          last_nu = nu; nu = new_nu;  if nu == inf: return mu, Sigma, nu
+          w = (nu + dim)/(nu + delta);  new_Sigma = dot(w*diffs, diffs.T)/n
+          try:    cholesky(new_Sigma)
+          except LinAlgError: nu = last_nu; break                       -- previous nu, previous (mu, Sigma)
+          Sigma = new_Sigma;  mu = sum(w*data, 1)/sum(w)
       if i == max_iter: print warning
       return mu, Sigma, nu
   and `modes.py`: `if ~np.isfinite(dof): dof = dof_fallback`.
@@ -125,33 +132,50 @@ def step (n : Nat) (X : Mat α) (st : State α) (nu : α) : Option (State α) :=
   (stateDeltas n X st).map fun dl => update n X (diffs X st.mu) (weights X.length nu dl)
 
 inductive Stop where
-  | converged | maxIter | infNu | tapeEnd | notPD
+  | converged      -- `|last_nu - nu| <= tol` with iterations to spare
+  | maxIter        -- `i == max_iter` at the loop test
+  | infNu          -- `opt_nu` answered inf: early return
+  | tapeEnd        -- (driver only) the supplied tape was too short
+  | notPD          -- `solve(Sigma, diffs)` raised: stop BEFORE any update, last (mu, Sigma, nu) kept
+  | nuFail         -- `opt_nu` raised (`bisect` `ValueError`): same effect as `notPD`
+  | sigmaNotPD     -- `cholesky(new_Sigma)` raised: the PREVIOUS nu and the previous (mu, Sigma) are kept
   deriving Repr, DecidableEq
+
+/-- what `opt_nu` did in one iteration -/
+inductive NuEv (α : Type) where
+  | val (x : α)
+  | inf
+  | fail
 
 structure Result (α : Type) where
   iterates : List (State α)      -- every (mu, Sigma) the loop went through, the initial one first
   stop : Stop
   nu : Option α                  -- final value, `none` = inf
+  warned : Bool                  -- `i == max_iter` when the function returns normally (warning printed)
 
-/-- `fuel = max_iter - i`.  `tape`: the values `opt_nu` returned, one per iteration (`none` = inf). -/
-def loop (tol : α) (n : Nat) (X : Mat α) : Nat → State α → α → α → List (Option α) → Result α
-  | 0, st, nu, _, _ => ⟨[st], .maxIter, some nu⟩
+/-- `fuel = max_iter - i`.  `tape`: what `opt_nu` did, one event per iteration. -/
+def loop (tol : α) (n : Nat) (X : Mat α) : Nat → State α → α → α → List (NuEv α) → Result α
+  | 0, st, nu, _, _ => ⟨[st], .maxIter, some nu, true⟩
   | fuel+1, st, nu, lastNu, tape =>
     if Sc.lt tol (Sc.abs (Sc.sub lastNu nu)) then
       match stateDeltas n X st with
-      | none => ⟨[st], .notPD, some nu⟩
+      | none => ⟨[st], .notPD, some nu, fuel == 0⟩
       | some dl =>
         match tape with
-        | [] => ⟨[st], .tapeEnd, some nu⟩
-        | none :: _ => ⟨[st], .infNu, none⟩
-        | some nu' :: rest =>
+        | [] => ⟨[st], .tapeEnd, some nu, fuel == 0⟩
+        | .fail :: _ => ⟨[st], .nuFail, some nu, fuel == 0⟩
+        | .inf :: _ => ⟨[st], .infNu, none, false⟩
+        | .val nu' :: rest =>
           let st' := update n X (diffs X st.mu) (weights X.length nu' dl)
-          let r := loop tol n X fuel st' nu' nu rest
-          ⟨st :: r.iterates, r.stop, r.nu⟩
-    else ⟨[st], .converged, some nu⟩
+          match inv st'.sigma with
+          | none => ⟨[st], .sigmaNotPD, some nu, fuel == 0⟩
+          | some _ =>
+            let r := loop tol n X fuel st' nu' nu rest
+            ⟨st :: r.iterates, r.stop, r.nu, r.warned⟩
+    else ⟨[st], .converged, some nu, false⟩
 
-/-- `fit_mvstud(data, tol, max_iter)` with the `opt_nu` values on a tape -/
-def fit (tol : α) (maxIter : Nat) (n : Nat) (X : Mat α) (tape : List (Option α)) : Option (Result α) :=
+/-- `fit_mvstud(data, tol, max_iter)` with the `opt_nu` events on a tape -/
+def fit (tol : α) (maxIter : Nat) (n : Nat) (X : Mat α) (tape : List (NuEv α)) : Option (Result α) :=
   (init n X).map fun st => loop tol n X maxIter st (Sc.ofNat 20) Sc.zero tape
 
 /-! ### `if ~np.isfinite(dof): dof = dof_fallback`  (modes.py) -/
